@@ -547,7 +547,7 @@ paths:
 		t.Fatalf("core did not start")
 	}
 	return &vC12Target{p: p, http: withAPI, base: fmt.Sprintf("http://127.0.0.1:%d", port),
-		client: &http.Client{Timeout: 10 * time.Second, Transport: &http.Transport{DisableKeepAlives: true}}}
+		client: &http.Client{Timeout: 30 * time.Second, Transport: &http.Transport{DisableKeepAlives: true}}}
 }
 
 func TestVerifC12(t *testing.T) {
@@ -581,6 +581,7 @@ func TestVerifC12(t *testing.T) {
 		var stepTerms []string
 		var stepDescs []any
 		nOK, nRej := 0, 0
+		unanswered := false
 
 		for s := 0; s < steps; s++ {
 			var op vC12Op
@@ -620,8 +621,12 @@ func TestVerifC12(t *testing.T) {
 			if useHTTP {
 				outcome, msg, err = tg.overHTTP(op)
 				if err != nil {
-					tg.p.Close()
-					t.Fatalf("history %d step %d (%+v): %v", h, s, op, err)
+					// the request was not answered: reported as a case of its own
+					t.Logf("history %d step %d (%+v): %v", h, s, op, err)
+					stepDescs = append(stepDescs, map[string]any{"op": op.kind, "name": op.name, "body": op.body,
+						"outcome": "no answer", "error": err.Error()})
+					unanswered = true
+					break
 				}
 			} else {
 				outcome, msg = tg.direct(op)
@@ -690,8 +695,20 @@ func TestVerifC12(t *testing.T) {
 				nRej++
 			}
 			prev = cur
+			if useHTTP && outcome == vC12OK {
+				// let the reload that follows the answer finish before the next request: a request that reaches an API
+				// server which is being shut down by that reload is only served once the shutdown has timed out
+				for i := 0; i < 500 && tg.p.conf.Load() != tg.p.APIConfigSnapshot(); i++ {
+					time.Sleep(10 * time.Millisecond)
+				}
+			}
 		}
 		tg.p.Close()
+		if unanswered {
+			out.Case("(Unanswered Http)", map[string]any{"mode": "http", "initialPaths": initPathsD, "steps": stepDescs},
+				"http-unanswered", true)
+			continue
+		}
 
 		mode := "Direct"
 		class := "direct"
